@@ -144,12 +144,13 @@ bool tN2kGroupFunctionHandlerForPGN60928::HandleCommand(const tN2kMsg &N2kMsg, u
   tN2kGroupFunctionParameterErrorCode PARec;
   tN2kMsg N2kRMsg;
 
+    if (PrioritySetting!=8) pec=N2kgfTPec_TransmitIntervalOrPriorityNotSupported;
+
     SetStartAcknowledge(N2kRMsg,N2kMsg.Source,PGN,
                         N2kgfPGNec_Acknowledge,  // What we actually should response as PGN error, if we have invalid field?
                         pec,
                         NumberOfParameterPairs);
 
-    if (PrioritySetting!=8) pec=N2kgfTPec_TransmitIntervalOrPriorityNotSupported;
     StartParseCommandPairParameters(N2kMsg,Index);
     // Next read new field values
     for (i=0; i<NumberOfParameterPairs; i++) {
